@@ -74,10 +74,11 @@ CLAIMED = {
   'text': 'Partial (literals, character classes, layout). Verus proves on the real lexer bodies: the name/digit/whitespace character classes equal grammar rules 28-30 and 61-62; white space and any number of comments '
           'are skipped before a token (read_input ends at a non-layout character; consecutive comments included); consume_digits returns the maximal digit run; \\uXXXX / \\UXXXXXX escapes have their hexadecimal value; '
           'consume_unicode yields exactly the denoted scalar value for every 4-hex, 6-hex and surrogate-pair escape (UTF-8 assembly proved with bit-vector lemmas against RFC 3629) and errors otherwise; '
-          'consume_string returns exactly the code points the literal denotes (all escape forms) and accepts every well-formed literal. Precedence / associativity (data in the LALR tables and the driver\'s table lookups) only BOUNDED: '
+          'consume_string returns exactly the code points the literal denotes (all escape forms) and accepts every well-formed literal. Unit parser: the real driver loop Parser::parse does in every state exactly what the packed tables say under the Bison skeleton\'s semantics (shift / reduce / default / error and the goto after a reduction), '
+          'table content abstract, its range facts re-checked from lalr.rs on every run. Precedence / associativity (the CONTENT of the LALR tables) only BOUNDED: '
           'every ordered pair and triple of 15 operators, fully vs minimally parenthesised renderings through the real parser, minimal parentheses computed from feel.y\'s precedence declarations.',
   'design_ref': 'DESIGN.md section 5 (C06)',
-  'note': 'Trusted: Verus/Z3; String::from_utf8 = RFC 3629 decoding (stub); char classification std specs. Not decided beyond the bounded pairs / triples: LALR tables; reduce actions (which node is built); keyword / number tokenisation.',
+  'note': 'Trusted: Verus/Z3; String::from_utf8 = RFC 3629 decoding (stub); char classification std specs. One assume (A-LR: stack depth at a reduction). Not decided beyond the bounded pairs / triples: that the tables are the LALR(1) tables of feel.y; reduce actions (which node is built); keyword / number tokenisation.',
  },
  'C03': {
   'text': 'Partial. Verus proves on the real bodies of decision_table.rs, for all tables (any number of rules/outputs, any match pattern): a rule matches exactly when every input-entry evaluator yields true; '
